@@ -175,6 +175,8 @@ func siblingExpiryBatch(c *sup.Ctx) {
 		spec := rt.Spec{Disk: i%2 == 1, Intro: rt.Introducers[i%len(rt.Introducers)], Order: "sibling-collection", Relative: (i/2)%2 == 0, Coll: (i / 4) % 2, Lead: 2}
 		if (i/8)%3 == 2 {
 			spec.Order = "earlier-deadline-dropped" // what is done to the sibling collection (its drop) must not cost this one its expiry
+		} else if (i/8)%3 == 1 {
+			spec.Order = "far-deadline-in-lower-collection" // nor may a far-away deadline in the sibling collection
 		}
 		if spec.Intro == "SetWithMeta" {
 			spec.Relative = false
@@ -194,7 +196,7 @@ func siblingExpiryBatch(c *sup.Ctx) {
 		}
 		for _, p := range res.Problems {
 			kind, text := splitKind(p)
-			if kind == "sibling" || res.Spec.Order == "earlier-deadline-dropped" {
+			if kind == "sibling" || res.Spec.Order == "earlier-deadline-dropped" || res.Spec.Order == "far-deadline-in-lower-collection" {
 				c.Viol([]string{"C11", "C14"}, fmt.Sprintf("expiry|%s|%s|%s", kind, res.Spec.Intro, res.Spec.Order), text, res)
 				break
 			}
